@@ -82,8 +82,25 @@ def gen_norm(rng, n, tier="quick"):
         hh = rng.choice([0, 1, 11, 12, 13, 22, 23, rng.randint(0, 23)])
         now = datetime.datetime(d.year, d.month, d.day, hh, rng.randint(0, 59), rng.randint(0, 59),
                                 tzinfo=UTC)
+        p_omit = None
+        if z.iana is not None and len(z.utc_table) > 1 and rng.random() < 0.25:
+            # a clock reading within 75 minutes of the local midnight before or after one of the
+            # zone's offset changes: "today in the zone" must be read off the instant, not off the
+            # UTC reading shifted by some offset
+            t_us, _ = rng.choice(z.utc_table[1:])
+            tr = datetime.datetime(1, 1, 1, tzinfo=UTC) + datetime.timedelta(microseconds=t_us - 864 * 10**8)
+            ld = tr.astimezone(z.tzinfo).date() + datetime.timedelta(days=rng.choice([0, 1]))
+            if zones.in_span(ld):
+                mid = datetime.datetime(ld.year, ld.month, ld.day, tzinfo=z.tzinfo).astimezone(UTC)
+                now = (mid + datetime.timedelta(seconds=rng.randint(-4500, 4500))).replace(microsecond=0)
+                d = now.date()
+                prev = (d, z)
+                p_omit = 0.75
         by_name = z.iana is not None and rng.random() < 0.5
         tzarg = z.iana if by_name else z.tzinfo
+        if not by_name and z.iana is not None and rng.random() < 0.2:
+            tzarg = zones.docs(z)         # the same zone as a user-defined tzinfo object
+        ztz = z.tzinfo if by_name else tzarg
         tz_tok = ("Zname:%d" if by_name else "Zobj:%d") % z.id
         k = i % 14
         if k in (0, 1, 2, 3) and z.iana is not None and rng.random() < 0.3 and not isinstance(o.elevation, tuple):
@@ -106,7 +123,7 @@ def gen_norm(rng, n, tier="quick"):
         if k in (0, 1, 2, 3):
             fn = ("dawn", "dusk", "sunrise", "sunset")[k]
             sp = rng.random()
-            if sp < 0.25:
+            if sp < (p_omit or 0.25):
                 darg, dtok = None, N
             elif sp < 0.5:
                 darg, dtok = d, I(d.toordinal())
@@ -116,10 +133,10 @@ def gen_norm(rng, n, tier="quick"):
             else:
                 z2 = zones.rand_zone(rng, d)
                 naive = datetime.datetime(d.year, d.month, d.day, rng.randint(0, 23), rng.randint(0, 59))
-                darg = naive.replace(tzinfo=z2.tzinfo)
+                darg = naive.replace(tzinfo=zones.docs(z2) if z2.iana and rng.random() < 0.3 else z2.tzinfo)
                 dtok = "A%d:%d" % (wall_us(naive), z2.id)
                 descr["date_zone"] = z2.describe()
-            out_tz = darg.tzinfo if isinstance(darg, datetime.datetime) and darg.tzinfo is not None else z.tzinfo
+            out_tz = darg.tzinfo if isinstance(darg, datetime.datetime) and darg.tzinfo is not None else ztz
             descr["date"] = repr(darg)
             if fn in ("dawn", "dusk"):
                 dn = rng.choice(["civil", "nautical", "astronomical", "num"])
@@ -141,28 +158,47 @@ def gen_norm(rng, n, tier="quick"):
         elif k == 4:
             el = rng.choice([6.0, -4.0, rng.uniform(-10, 60), rng.uniform(91, 175), 90.0, 90.5])
             di = rng.choice([SunDirection.RISING, SunDirection.SETTING])
-            darg = d if rng.random() < 0.6 else None
+            darg = d if rng.random() < (1 - p_omit if p_omit else 0.6) else None
             wr = rng.random() < 0.7
             with FrozenClock(now):
                 st, v = call(sun.time_at_elevation, o, el, darg, di, tzarg, wr)
             descr.update({"elevation": el, "dir": di.name, "date": repr(darg)})
             yield Case("time_at_elevation", "pub_tae %s %s %s %s %s %s %s" % (
                 obs_tok(o), F(el), I(darg.toordinal()) if darg else N, dir_tok(di), tz_tok, B(wr),
-                I(instant_us(now))), TZD(v, z.tzinfo) if st == "ok" else E(v), descr)
+                I(instant_us(now))), TZD(v, ztz) if st == "ok" else E(v), descr)
+        elif k == 5 and rng.random() < 0.3:
+            # solar midnight with the date spelled as a datetime (naive or aware, any time of day):
+            # it means that datetime's calendar date; the zone argument stays the output zone
+            if rng.random() < 0.5:
+                darg = datetime.datetime(d.year, d.month, d.day, rng.choice([0, 12, 20, 23, rng.randint(0, 23)]),
+                                         rng.randint(0, 59))
+                dtok = "W%d" % wall_us(darg)
+            else:
+                z2 = zones.rand_zone(rng, d)
+                naive = datetime.datetime(d.year, d.month, d.day, rng.choice([0, 12, 20, 23, rng.randint(0, 23)]),
+                                          rng.randint(0, 59))
+                darg = naive.replace(tzinfo=z2.tzinfo)
+                dtok = "A%d:%d" % (wall_us(naive), z2.id)
+                descr["date_zone"] = z2.describe()
+            with FrozenClock(now):
+                st, v = call(sun.midnight, o, darg, tzarg)
+            descr["date"] = repr(darg)
+            yield Case("midnight", "pub_midnight_dt %s %s %s %s" % (obs_tok(o), dtok, tz_tok, I(instant_us(now))),
+                       TZD(v, ztz) if st == "ok" else E(v), descr)
         elif k == 5:
             fn = rng.choice(["noon", "midnight"])
-            darg = d if rng.random() < 0.5 else None
+            darg = d if rng.random() < (1 - p_omit if p_omit else 0.5) else None
             with FrozenClock(now):
                 st, v = call(getattr(sun, fn), o, darg, tzarg)
             descr["date"] = repr(darg)
             yield Case(fn, "pub_%s %s %s %s %s" % (fn, obs_tok(o), I(darg.toordinal()) if darg else N,
                                                    tz_tok, I(instant_us(now))),
-                       TZD(v, z.tzinfo) if st == "ok" else E(v), descr)
+                       TZD(v, ztz) if st == "ok" else E(v), descr)
         elif k == 7:
             # the period functions: date omitted / given, zone by name / object
             fn = rng.choice(["daylight", "night", "twilight", "golden_hour", "blue_hour", "rahu_day",
                              "rahu_night"])
-            darg = d if rng.random() < 0.45 else None
+            darg = d if rng.random() < (1 - p_omit if p_omit else 0.45) else None
             di = rng.choice([SunDirection.RISING, SunDirection.SETTING])
             descr.update({"function": fn, "date": repr(darg), "dir": di.name})
             with FrozenClock(now):
@@ -173,7 +209,7 @@ def gen_norm(rng, n, tier="quick"):
                 else:
                     st, v = call(sun.rahukaalam, o, darg, fn == "rahu_day", tzarg)
             if st == "ok":
-                exp = ("%s %s" % (TZD(v[0], z.tzinfo), TZD(v[1], z.tzinfo))
+                exp = ("%s %s" % (TZD(v[0], ztz), TZD(v[1], ztz))
                        if type(v) is tuple and len(v) == 2 else "X%s" % type(v).__name__)
             else:
                 exp = E(v)
@@ -184,7 +220,7 @@ def gen_norm(rng, n, tier="quick"):
             # daylight / night with the date spelled as a date, a naive or an aware datetime
             is_night = rng.random() < 0.5
             sp = rng.random()
-            if sp < 0.15:
+            if sp < (p_omit or 0.15):
                 darg, dtok = None, N
             elif sp < 0.3:
                 darg, dtok = d, I(d.toordinal())
@@ -196,10 +232,10 @@ def gen_norm(rng, n, tier="quick"):
                 z2 = zones.rand_zone(rng, d)
                 naive = datetime.datetime(d.year, d.month, d.day, rng.choice([0, 23, rng.randint(0, 23)]),
                                           rng.randint(0, 59))
-                darg = naive.replace(tzinfo=z2.tzinfo)
+                darg = naive.replace(tzinfo=zones.docs(z2) if z2.iana and rng.random() < 0.3 else z2.tzinfo)
                 dtok = "A%d:%d" % (wall_us(naive), z2.id)
                 descr["date_zone"] = z2.describe()
-            out_tz2 = darg.tzinfo if isinstance(darg, datetime.datetime) and darg.tzinfo is not None else z.tzinfo
+            out_tz2 = darg.tzinfo if isinstance(darg, datetime.datetime) and darg.tzinfo is not None else ztz
             descr.update({"function": "night" if is_night else "daylight", "date": repr(darg)})
             with FrozenClock(now):
                 st, v = call(sun.night if is_night else sun.daylight, o, darg, tzarg)
@@ -245,7 +281,7 @@ def gen_norm(rng, n, tier="quick"):
             from common import FS as _FS
             yield Case(which, req, (_FS(v) if st == "ok" else E(v)), descr)
         elif k == 8:
-            darg = d if rng.random() < 0.45 else None
+            darg = d if rng.random() < (1 - p_omit if p_omit else 0.45) else None
             dn = rng.choice(["civil", "nautical", "astronomical", "num"])
             if dn == "num":
                 depv = rng.choice([6, 12.0, 18, rng.uniform(0, 25)])
@@ -256,7 +292,7 @@ def gen_norm(rng, n, tier="quick"):
             with FrozenClock(now):
                 st, v = call(sun.sun, o, darg, dep_arg, tzarg)
             if st == "ok":
-                exp = (" ".join(TZD(v[key], z.tzinfo) for key in ("dawn", "sunrise", "noon", "sunset", "dusk"))
+                exp = (" ".join(TZD(v[key], ztz) for key in ("dawn", "sunrise", "noon", "sunset", "dusk"))
                        if type(v) is dict and list(v) == ["dawn", "sunrise", "noon", "sunset", "dusk"] else "Xkeys")
             else:
                 exp = E(v)
@@ -266,7 +302,7 @@ def gen_norm(rng, n, tier="quick"):
         else:
             rise = rng.random() < 0.5
             sp = rng.random()
-            if sp < 0.3:
+            if sp < (p_omit or 0.3):
                 darg, dtok = None, N
             elif sp < 0.6:
                 darg, dtok = d, I(d.toordinal())
@@ -276,13 +312,13 @@ def gen_norm(rng, n, tier="quick"):
             else:
                 z2 = zones.rand_zone(rng, d)
                 naive = datetime.datetime(d.year, d.month, d.day, rng.choice([0, 23, rng.randint(0, 23)]), 30)
-                darg = naive.replace(tzinfo=z2.tzinfo)
+                darg = naive.replace(tzinfo=zones.docs(z2) if z2.iana and rng.random() < 0.3 else z2.tzinfo)
                 dtok = "A%d:%d" % (wall_us(naive), z2.id)
             descr["date"] = repr(darg)
             with FrozenClock(now):
                 st, v = call(moon.moonrise if rise else moon.moonset, o, darg, tzarg)
             if st == "ok":
-                exp = N if v is None else TZD(v, z.tzinfo)
+                exp = N if v is None else TZD(v, ztz)
             else:
                 exp = E(v)
             yield Case("moonrise" if rise else "moonset", "pub_moon %s %s %s %s %s %s" % (
